@@ -1,0 +1,18 @@
+//go:build verif
+
+package types
+
+// Contracts for the deductive checker in /verif (comment-only; compiled only with -tags verif). C10, IBC transfer wrapper:
+// the expected erc20 keeper is x/erc20/keeper.Keeper (app wiring), its methods use that keeper's contracts
+// (`dispatch`: proved at the call from the wrapper's `wired` precondition; `sameas` for the two trusted leaf accessors).
+
+/*@
+func (ERC20Keeper).IsERC20Enabled
+    sameas (github.com/haqq-network/haqq/x/erc20/keeper.Keeper).IsERC20Enabled
+func (ERC20Keeper).GetTokenPairID
+    dispatch (github.com/haqq-network/haqq/x/erc20/keeper.Keeper).GetTokenPairID
+func (ERC20Keeper).GetTokenPair
+    sameas (github.com/haqq-network/haqq/x/erc20/keeper.Keeper).GetTokenPair
+func (ERC20Keeper).ConvertERC20
+    dispatch (github.com/haqq-network/haqq/x/erc20/keeper.Keeper).ConvertERC20
+@*/
